@@ -44,8 +44,12 @@ theorems; the translator itself enforces: the refresh prologue precedes the read
 Payload forms (anything else ⇒ the function is `untranslated: <reason>`, no definition is emitted):
   solvePDE
     if <p> is None: <s> = <imported name> else: <s> = <p>            solver selection (<p> a parameter with default None)
+                                                                      (also `if <p> is not None` with the branches swapped, and
+                                                                      the conditional expression `<s> = <g> if <p> is None else <p>`)
     <a>, <b> = <v>._BCsTerm                                           read of the cached boundary term
     <M> = <a>.copy()   |   <M> = <a>                                  accumulator (copy recorded)
+                                                                      (two ADJACENT initialisations are independent: the accumulators
+                                                                      are numbered by the cached component they start from)
     for <t> in <list parameter>: <body>                               body: if / elif / else over the atomic tests
                                                                       isinstance(r, tuple), len(r) ==|!= n (only where r
                                                                       is known to be a tuple), getattr(r, 'ndim', None)
@@ -217,8 +221,40 @@ def check_mesh_dims(tree):
 # ---------------------------------------------------------------------------------------------------------
 # shared pieces: solver selection, solver call, reshape
 # ---------------------------------------------------------------------------------------------------------
+def ifexp_as_if(st):
+    """`<s> = <a> if <test> else <b>` is the statement `if <test>: <s> = <a>` / `else: <s> = <b>`"""
+    if isinstance(st, ast.Assign) and len(st.targets) == 1 and is_name(st.targets[0]) and isinstance(st.value, ast.IfExp):
+        t = st.targets[0]
+        new = ast.If(test=st.value.test,
+                     body=[ast.Assign(targets=[ast.Name(id=t.id, ctx=ast.Store())], value=st.value.body)],
+                     orelse=[ast.Assign(targets=[ast.Name(id=t.id, ctx=ast.Store())], value=st.value.orelse)])
+        ast.copy_location(new, st)
+        return ast.fix_missing_locations(new)
+    return st
+
+
+def norm_runs(seq, groups):
+    """canonical order inside maximal runs of mutually independent, effect-free entries (each group of `groups` is
+    a list of entry names in canonical order; a run = consecutive entries of one group; duplicates collapse)"""
+    out, i = [], 0
+    while i < len(seq):
+        g = next((g for g in groups if seq[i] in g), None)
+        if g is None:
+            out.append(seq[i])
+            i += 1
+            continue
+        j = i
+        while j < len(seq) and seq[j] in g:
+            j += 1
+        run = seq[i:j]
+        out += [x for x in g if x in run]
+        i = j
+    return out
+
+
 def match_solver_select(st, params, defaults, mod):
     """`if <p> is None: <s> = <g> else: <s> = <p>` → (s, p, g)"""
+    st = ifexp_as_if(st)
     if not (isinstance(st, ast.If) and isinstance(st.test, ast.Compare) and len(st.test.ops) == 1
             and isinstance(st.test.ops[0], (ast.Is, ast.IsNot)) and is_name(st.test.left)
             and isinstance(st.test.comparators[0], ast.Constant) and st.test.comparators[0].value is None):
@@ -474,6 +510,15 @@ class SolvePDE:
             raise Bad(f"loop header `for {ast.unparse(st.target)} in {ast.unparse(st.iter)}`")
         if len(self.accs) != 2:
             raise Bad(f"{len(self.accs)} accumulators before the loop (2 expected)")
+        # the accumulators are numbered by the component of the cached term they start from, not by the order of the
+        # two (independent) initialisation statements, provided these are adjacent
+        if self.accs[0]["cached"] > self.accs[1]["cached"]:
+            i0 = self.seq.index("init_acc0")
+            if self.seq[i0:i0 + 2] == ["init_acc0", "init_acc1"]:
+                self.accs.reverse()
+                for n, v in list(self.env.items()):
+                    if v[0] == "acc":
+                        self.env[n] = ("acc", 1 - v[1])
         self.fresh(st.target.id)
         if st.target.id in self.env:
             raise Bad("loop variable shadows a local")
@@ -922,7 +967,10 @@ class Explicit:
         out.append(f"def explicit_store : Store := ⟨{'.newVar' if owner == 'newvar' else '.param 0'}, \"_value\", "
                    f"{lstr(wrapper)}, .computed⟩\n")
         out.append(f"def explicit_return : RetVal := {self.ret}\n")
-        out.append("def explicit_sequence : List String :=\n  " + llist(lstr(x) for x in self.seq) + "\n")
+        # `read_old` (first read of `<v>._value`) and `compute` (binding a name to a NEW array) have no effect on any
+        # object: a run of them is recorded once, in this order, however many statements it is spread over
+        seq = norm_runs(self.seq, [["read_old", "compute"]])
+        out.append("def explicit_sequence : List String :=\n  " + llist(lstr(x) for x in seq) + "\n")
         out.append("def explicit_stateStmts : List String :=\n  " + llist(lstr(x) for x in self.state_stmts) + "\n")
         return out
 
